@@ -5,3 +5,10 @@ reg("C06", "proof",
     "wrapping relation, the 14 arms of Shape::read_from (code -> content reader -> variant), the blanket typed reader's "
     "match/mismatch paths for every code, the 13 From/TryFrom pairs with their error fields, and the bulk conversion's "
     "error propagation. All obligations discharged on the repaired tree (fix commit 0b3e257 in /repo).")
+reg("C18", "proof",
+    "effect summaries + linear forms over (#parts, sum of part lengths) (E2): coefficient equality, no solving",
+    "For each of the 13 writable types the linear form of size_in_bytes() equals, coefficient by coefficient, the byte count of "
+    "the abstract effect summary of write_to() (loops contribute trip count x body), hence for every shape; both equal the ESRI "
+    "size formula; write_shape stores ((size + 4) / 2) as i32 and emits record number, length, 4-byte code, shape in that order on "
+    "one destination. 13 + 13 + per-path obligations, all discharged.",
+    note=TRUST + "; a for loop over a slice runs once per element; usize arithmetic in size_in_bytes does not overflow")
